@@ -34,10 +34,11 @@ SpecEdits(dir, name, c) ==
 DevEdits(dir, name, c, d) ==
   LET t == Tag(dir, name) \o "_" \o d IN
   [env    |-> <<[n |-> "SHARED", v |-> "dev-" \o t], [n |-> "D_" \o d, v |-> t]>>,
-   \* x: nothing specified, completed from the host at every injection; y: fully specified
+   \* x: nothing specified, completed from the host at every injection; y: fully specified (z: below)
    nodes  |-> IF d = "x" THEN <<[path |-> "h1", host |-> "", type |-> "", major |-> 0, minor |-> 0, perm |-> "", uid |-> -1, gid |-> -1, fmode |-> -1]>>
               ELSE IF d = "y" THEN <<[path |-> "h2", host |-> "", type |-> "c", major |-> 4, minor |-> 2, perm |-> "rw", uid |-> -1, gid |-> -1, fmode |-> -1]>>
-              ELSE <<>>,
+              \* z: type and host path given, numbers left to the host
+              ELSE <<[path |-> "h2", host |-> "h1", type |-> "b", major |-> 0, minor |-> 0, perm |-> "r", uid |-> -1, gid |-> -1, fmode |-> -1]>>,
    mounts |-> <<[dest |-> D2(<<"m", d>>), src |-> t, typ |-> ""], [dest |-> D2(<<"dev-" \o d>>), src |-> t, typ |-> ""]>>,
    hooks  |-> <<[stage |-> "prestart", path |-> "dev-" \o t], [stage |-> "createRuntime", path |-> "dev-" \o t]>>,
    gids   |-> IF d = "z" THEN <<12, 13>> ELSE <<>>,
